@@ -241,7 +241,7 @@ prop("C19",
 prop("C18", timeout_quick=1500,
      title="Connection setup honours the URL and fails cleanly on bad input",
      rule="real loopback sockets: TCP listeners on 127.0.0.1/[::1] ports 389 and 636 (the sandbox runs as root), ephemeral ports, a listener that reads and never answers, a port with no listener, and Unix socket listeners at generated paths (plain; with space, '%', non-ASCII and ':' needing percent-encoding). An enumerated table of (URL, StartTLS, timeout, pre-opened TCP/Unix/Invalid stream) cases with the expected outcome derived from the property: explicit host/port, default ports 389/636, missing or empty host = localhost (ldap:///, ldap://, ldap:), IPv6 literal, ldapi percent-decoding, empty and port-bearing ldapi paths, unknown schemes, unparsable URLs, refused port, pre-opened stream used iff its type matches the scheme (and then no new connection is made), connection timeout bounding StartTLS / TLS handshake against a silent server; plus 300 seeded fuzzed scheme/separator/host/port/path/settings combinations for which only 'no panic, no hang' is required. Every case runs through LdapConnAsync::with_settings and LdapConn::with_settings; the oracle compares Ok/Err/panic and WHICH listener received a connection. distinct = distinct (URL, settings, API) cases",
-     claim="held on the enumerated matrix and the fuzzed combinations of this run; real time is used only for the generous bound (6 s for a 300 ms connection timeout) and for hang detection (8 s per setup call), a port that cannot be bound makes its cases inconclusive",
+     claim="held on the enumerated matrix and the fuzzed combinations of this run; real time is used only for hang detection: a setup call still pending after 8 s is retried once alone with a 40 s guard and only a call pending both times is a hang; a call that returns late is inconclusive, a port that cannot be bound makes its cases inconclusive",
      design="3/C18", technique="listener-attribution monitor on real loopback/Unix sockets over an enumerated URL x settings matrix plus URL fuzzing with panic capture",
      note="needs to bind 127.0.0.1:389/636 (root); runs are serialised with a lock file; scratch sockets live under /tmp for the duration of the run only")
 
